@@ -262,6 +262,131 @@ thread_local! {
 pub fn run_line(t: &[&str]) -> Option<MsgVerdict> {
     let mut fails = vec![];
     match t {
+        ["rtok", hx] => {
+            // as `rt`, but these octets MUST decode
+            match run_line(&["rt", hx]) {
+                Some(mut v) => {
+                    v.kind = "rtok";
+                    Some(v)
+                }
+                None => {
+                    fails.push("does not decode although it must (a valid encoding)".into());
+                    Some(MsgVerdict { out: "undecodable".into(), fails, class: "", n_limits: 0, n_truncated: 0, n_err: 1, n_full: 0, kind: "rtok", len: hx.len() / 2 })
+                }
+            }
+        }
+        ["svcbenc", ty, keys] => {
+            // an SVCB / HTTPS value built from its parts through the public constructors, encoded:
+            // strictly increasing keys (numeric wire value) must encode and decode back to the same
+            // value; any other order must be refused by the encoder
+            use hickory_proto::rr::rdata::svcb::{Alpn, EchConfigList, IpHint, Mandatory, SvcParamKey, SvcParamValue, Unknown, SVCB};
+            use hickory_proto::rr::rdata::{A, AAAA, HTTPS};
+            let ty: u16 = ty.parse().ok()?;
+            let ks: Vec<u16> = if *keys == "-" { vec![] } else { keys.split(',').map(|x| x.parse().ok()).collect::<Option<_>>()? };
+            let val = |k: u16| -> SvcParamValue {
+                match k {
+                    0 => SvcParamValue::Mandatory(Mandatory(vec![SvcParamKey::Alpn])),
+                    1 => SvcParamValue::Alpn(Alpn(vec!["h2".to_string()])),
+                    2 => SvcParamValue::NoDefaultAlpn,
+                    3 => SvcParamValue::Port(443),
+                    4 => SvcParamValue::Ipv4Hint(IpHint(vec![A::new(192, 0, 2, 1)])),
+                    5 => SvcParamValue::EchConfigList(EchConfigList(vec![1, 2, 3])),
+                    6 => SvcParamValue::Ipv6Hint(IpHint(vec![AAAA::new(0x2001, 0xdb8, 0, 0, 0, 0, 0, 1)])),
+                    _ => SvcParamValue::Unknown(Unknown(vec![(k % 256) as u8, 7])),
+                }
+            };
+            let svcb = SVCB::new(1, hickory_proto::rr::Name::root(), ks.iter().map(|k| (SvcParamKey::from(*k), val(*k))).collect());
+            let d = if ty == 65 { RData::HTTPS(HTTPS(svcb)) } else { RData::SVCB(svcb) };
+            let mut buf = Vec::new();
+            let res = {
+                let mut enc = BinEncoder::new(&mut buf);
+                d.emit(&mut enc)
+            };
+            let increasing = ks.windows(2).all(|w| w[0] < w[1]);
+            let out = match res {
+                Ok(()) => {
+                    if !increasing {
+                        fails.push(format!("SVCB with keys {ks:?} (not strictly increasing) was encoded"));
+                    }
+                    match RData::read(BinDecoder::new(&buf), hickory_proto::rr::RecordType::from(ty)) {
+                        Ok(back) => {
+                            if crate::props::c01::show_record(&Record::from_rdata(hickory_proto::rr::Name::root(), 0, back))
+                                != crate::props::c01::show_record(&Record::from_rdata(hickory_proto::rr::Name::root(), 0, d.clone()))
+                            {
+                                fails.push(format!("SVCB with keys {ks:?} decodes, after encoding, to a different value"));
+                            }
+                        }
+                        Err(e) => {
+                            if increasing {
+                                fails.push(format!("SVCB with keys {ks:?} (strictly increasing) does not decode after encoding: {e}"))
+                            }
+                        }
+                    }
+                    format!("ok {}", hex(&buf))
+                }
+                Err(e) => {
+                    if increasing {
+                        fails.push(format!("SVCB with strictly increasing keys {ks:?} was refused by the encoder: {e}"));
+                    }
+                    "err".into()
+                }
+            };
+            Some(MsgVerdict { out, fails, class: "", n_limits: 0, n_truncated: 0, n_err: 0, n_full: 1, kind: "svcbenc", len: buf.len() })
+        }
+        ["ednsrc", via, low, high, stale, version, dok, z, payload] => {
+            // the Edns VALUE carries `stale` as rcode_high; the message's response code is (high, low):
+            // decode(encode m) must give the message's response code, and every other Edns field back
+            use hickory_proto::op::{MessageType, OpCode, ResponseCode};
+            let (low, high, stale, version): (u8, u8, u8, u8) = (low.parse().ok()?, high.parse().ok()?, stale.parse().ok()?, version.parse().ok()?);
+            let (z, payload): (u16, u16) = (z.parse().ok()?, payload.parse().ok()?);
+            let dok = *dok == "1";
+            let mut e = if *via == "d" {
+                // an Edns taken from a decoded message whose extended response code had `stale` as high bits
+                let mut first = Message::new(1, MessageType::Response, OpCode::Query);
+                first.metadata.response_code = ResponseCode::from(stale, 1);
+                let mut fe = Edns::new();
+                fe.set_rcode_high(stale);
+                first.set_edns(fe);
+                let b = first.to_vec().ok()?;
+                Message::from_vec(&b).ok()?.edns.clone()?
+            } else {
+                let mut e = Edns::new();
+                e.set_rcode_high(stale);
+                e
+            };
+            e.set_version(version);
+            e.set_dnssec_ok(dok);
+            e.flags_mut().z = z;
+            e.set_max_payload(payload);
+            let mut m = Message::new(4369, MessageType::Response, OpCode::Query);
+            m.metadata.response_code = ResponseCode::from(high, low);
+            m.set_edns(e);
+            let out = match m.to_vec() {
+                Ok(b) => {
+                    match Message::from_vec(&b) {
+                        Ok(m2) => {
+                            let want = u16::from(ResponseCode::from(high, low));
+                            let got = u16::from(m2.metadata.response_code);
+                            if got != want {
+                                fails.push(format!("response code {want} (high {high}, low {low}) with a stale Edns rcode_high {stale} decodes, after encoding, to {got}"));
+                            }
+                            match &m2.edns {
+                                Some(e2) => {
+                                    if e2.rcode_high() != high || e2.version() != version || e2.flags().dnssec_ok != dok || e2.flags().z != (z & 0x7FFF) || e2.max_payload() != payload.max(512) {
+                                        fails.push(format!("Edns fields do not round-trip: rcode_high {} version {} do {} z {} payload {} (want {high} {version} {dok} {} {})", e2.rcode_high(), e2.version(), e2.flags().dnssec_ok, e2.flags().z, e2.max_payload(), z & 0x7FFF, payload.max(512)));
+                                    }
+                                }
+                                None => fails.push("the OPT record disappeared".into()),
+                            }
+                        }
+                        Err(e) => fails.push(format!("the encoding does not decode: {e}")),
+                    }
+                    format!("ok {}", hex(&b))
+                }
+                Err(_) => "err".into(),
+            };
+            Some(MsgVerdict { out, fails, class: "", n_limits: 1, n_truncated: 0, n_err: 0, n_full: 1, kind: "ednsrc", len: 23 })
+        }
         ["undec", hx] => {
             // regression lines: these octets must NOT decode (implementation and model)
             let bytes = unhex(hx)?;
